@@ -25,6 +25,9 @@ import (
 	"encoding/binary"
 	"fmt"
 	"github.com/ethereum/go-ethereum/p2p/enr"
+	"github.com/ethereum/go-ethereum/rlp"
+	"github.com/holiman/uint256"
+	pingext "github.com/zen-eth/shisui/portalwire/ping_ext"
 	"math/rand"
 	"net"
 	"os"
@@ -508,6 +511,7 @@ func runC01(o *Out, r *rand.Rand, thorough bool, args []string) {
 	}
 	if want("utpbody") {
 		runUtpBody(o, r)
+		runPongThenNodes(o, r)
 	}
 	if want("wire") {
 		runChildren(o, r, thorough)
@@ -1222,6 +1226,64 @@ func runOfferedContents(o *Out, r *rand.Rand, scale int, n *c01Node) {
 // runUtpBody: a looked-up item that arrives over a uTP stream the peer really serves (connect, write, EOF), with the body
 // framed the way the peer believes is negotiated: honestly, raw while we expect the version-1 frame (decoding fails AFTER a
 // complete read), and framed while we expect raw bytes. The call returns a value or an error.
+// runPongThenNodes: a TALKRESP to one of OUR requests that makes us send a second request, whose answer is then the input: a
+// peer of our table answers our PING with a PONG announcing a newer record than we hold, we ask it for that record
+// (FINDNODES for distance 0), and it answers with a well-formed NODES message that holds its new record (honest), nothing, a
+// record of somebody else, or its record with a broken signature. The PING comes back fine in every case; nothing panics.
+func runPongThenNodes(o *Out, r *rand.Rand) {
+	mn := newMemNet()
+	a := startNode(mn, r, nodeOpts{ip: net.IP{34, 41, 1, 1}, port: 9910, versions: []uint8{0, 1}, utpLimit: 10})
+	for i, kind := range []string{"honest", "empty", "foreign", "unsigned", "twice", "honest"} {
+		sp := startScriptedPeer(mn, r, net.IP{34, byte(42 + i), 2, 1}, 9911+i, portalwire.History)
+		held := sp.node()
+		a.p.AddEnr(held)
+		sp.ln.Set(enr.WithEntry("bump", uint8(i))) // the peer's record moves on; we still hold (and ping) the old one
+		newer := sp.node()
+		rad, _ := new(uint256.Int).SetAllOne().MarshalSSZ()
+		pl := pingext.NewClientInfoAndCapabilitiesPayload(rad, []uint16{0, 2})
+		plb, _ := pl.MarshalSSZ()
+		var asked int32 // FINDNODES requests the peer received: the scenario is about the answer to the second request
+		sp.reply = func(req []byte) []byte {
+			if len(req) == 0 {
+				return nil
+			}
+			switch req[0] {
+			case portalwire.PING:
+				body, _ := (&portalwire.Pong{EnrSeq: newer.Seq(), PayloadType: pingext.ClientInfo, Payload: plb}).MarshalSSZ()
+				return append([]byte{portalwire.PONG}, body...)
+			case portalwire.FINDNODES:
+				atomic.AddInt32(&asked, 1)
+				var recs [][]byte
+				own, _ := rlp.EncodeToBytes(newer.Record())
+				switch kind {
+				case "honest":
+					recs = [][]byte{own}
+				case "foreign":
+					other, _ := rlp.EncodeToBytes(signRecPad(keyFromSeed(rand.New(rand.NewSource(int64(i)))), net.IP{34, 41, 3, 1}, 9000, 1, 0).Record())
+					recs = [][]byte{other}
+				case "unsigned":
+					bad := append([]byte{}, own...)
+					bad[10] ^= 0x40
+					recs = [][]byte{bad}
+				case "twice":
+					recs = [][]byte{own, own}
+				}
+				body, _ := (&portalwire.Nodes{Total: 1, Enrs: recs}).MarshalSSZ()
+				return append([]byte{portalwire.NODES}, body...)
+			}
+			return nil
+		}
+		out := guarded(callTimeout, func() string {
+			_, err := a.p.VerifPing(held)
+			return errClass(err)
+		})
+		o.Case(fmt.Sprintf("pongseq kind=%s asked=%d", kind, atomic.LoadInt32(&asked)), out)
+		sp.stop()
+		checkAbort()
+	}
+	a.stop()
+}
+
 func runUtpBody(o *Out, r *rand.Rand) {
 	mn := newMemNet()
 	// the serving side frames by what the asker ADVERTISES; the asker decodes by what its version cache says about the very
